@@ -1,5 +1,5 @@
 (* C20 — property theorems.  Nothing but statements, `exact`, Print Assumptions. *)
-From G20 Require Import Model Check Proofs Obligations.
+From G20 Require Import Model Check Proofs OracleProofs Obligations.
 Open Scope Z_scope.
 
 (* With a limiter of rate R > 0 (bytes/s) and bucket B: for every schedule of Read/Write calls of
@@ -79,6 +79,34 @@ Print Assumptions T20_data_unchanged.
 Theorem T20_oversized_call_unthrottled : forall l t n, l_burst l < n -> 0 < n -> charge1 l t n = (l, t).
 Proof. exact oversized_unthrottled. Qed.
 Print Assumptions T20_oversized_call_unthrottled.
+
+(* Oracle completeness: the run-time oracle of the limiter cases (the segment inequality evaluated for
+   every j <= k on the delays the real rate.Limiter returned) accepts the model's own trace of ANY sequence
+   of ReserveN(t, n) calls -- refused (n > burst) and empty (n = 0) requests and backwards time stamps
+   included -- for every tolerance >= 0.  So a P-failure on the implementation is a real difference. *)
+Theorem T20_oracle_complete : forall bw reqs tol,
+  0 < bw -> 0 <= tol -> (forall t n, In (t, n) reqs -> 0 <= n) ->
+  lcase_prop_ok {| lc_bw := bw; lc_burst := burst_of bw; lc_rate_milli := bw * 1000; lc_tol := tol;
+                   lc_ops := model_ops (new_limiter bw) reqs |} = true.
+Proof. exact (fun bw reqs tol Hbw Htol Hn => oracle_complete bw reqs tol Hbw Htol ob_burst_floor_is_max Hn). Qed.
+Print Assumptions T20_oracle_complete.
+
+(* The oracle of the end-to-end and time-boxed transfers is T20_bound read at the window [0, t] anchored
+   before the first connection: for every schedule meeting T20_bound's hypotheses on the limiter a
+   --read-limit / --write-limit R creates, with at most skew_allow of backwards time stamps, whatever a
+   client has seen by t (never more than was moved by t) passes `within`.  A transfer that fails
+   `within` is therefore outside the model's behaviours. *)
+Theorem T20_window_oracle_is_bound : forall R es conns maxc t bytes (c : ecase),
+  0 <= t -> 0 < R -> 0 <= maxc <= burst_of R ->
+  (forall x, In x es -> 0 < e_n x <= maxc /\ e_io x <= e_t x /\ In (e_conn x) conns) ->
+  NoDup conns ->
+  sequential (combine es (run_lim (new_limiter R) es)) ->
+  skew (map e_t es) <= ec_skew_allow c ->
+  ec_conns c = Z.of_nat (length conns) -> ec_maxcall c = maxc ->
+  bytes <= moved 0 t es ->
+  within R (burst_of R) c t bytes = true.
+Proof. exact window_oracle_accepts. Qed.
+Print Assumptions T20_window_oracle_is_bound.
 
 (* Non-vacuity: a concrete schedule (2 connections, 1 MiB/s; a 4 MiB call empties the bucket, two
    32 KiB calls then really wait 31.25 ms each) meets T20_bound's hypotheses. *)
